@@ -17,6 +17,18 @@ L2: two REAL LogicalLinkControllers (harness/sims/dlc_pair.py), each with a real
 L3: oracle on the real objects only: prefix / conservation / window / wire
     numbering / acknowledgement sanity / no FRMR / EMSGSIZE / only documented
     errnos, plus the real CONNECT-CC handshake giving consistent parameters.
+
+Routing layer (props/c05_net.py, sims/dlc_net.py, Model/DlcSap.lean, Props/C05Sap.lean):
+L1: an inbound I / RR / RNR PDU reaches the socket of its own connection although the
+    access point holds several sockets (stale sockets of earlier connections from the
+    same source SAP included) - one controller under a disciplined inbound stream,
+    every client-only controller emits such a stream, both composed over FIFO wires.
+L2: two real controllers with any number of sockets (listen / accept / connect by
+    address and by name / re-connect from the same SAP / close) against the compiled
+    model, every socket and every sock_list compared after every step.
+L3: per connection the oracle above, plus: every I / RR / RNR PDU is handed to the
+    partner socket of the socket that sent it (object identity), no established
+    socket takes a PDU of another connection.
 """
 import itertools
 import logging
@@ -619,7 +631,10 @@ def lock_regions(ck):
 def run(ck):
     ck.tables("TablesPdu")   # T-tie for constants: source tables re-extracted, bridge theorems re-proved
     rng = ck.rng
-    ck.rule = ("(schedules of blocked threads count as histories too: scenario + decision list) a case is one history: (RW_A, RW_B, MIU_A, MIU_B, link MIU, aggregation, sequence of steps on two real "
+    ck.rule = ("(histories of the routing layer: link MIU, aggregation, sequence of steps on two real controllers with any "
+               "number of sockets - listeners, connects by address / name, accepts, re-connects from the same SAP, closes; "
+               "all reconnect scenarios, bounded-exhaustive from `stale accepted socket + new connection`, random) "
+               "(schedules of blocked threads count as histories too: scenario + decision list) a case is one history: (RW_A, RW_B, MIU_A, MIU_B, link MIU, aggregation, sequence of steps on two real "
                "controllers); bounded-exhaustive: every sequence of length d over a 10-letter step alphabet from the "
                "fresh connection and from a state one message before the modulo-16 wrap; random: walks with changing "
                "step weights over the RW grid 0..15 x 0..15; non-trivial = at least one message was delivered or "
@@ -632,11 +647,23 @@ def run(ck):
         "the connection parameters are those of a CONNECT/CC handshake with RW in 0..15 and MIU in 128..2175 "
         "(SO_RCVBUF above 15 is clamped to 15 by setsockopt; SO_RCVMIU below 128 cannot be announced: CONNECT/CC carry "
         "MIUX = MIU - 128, the peer assumes 128 and its 128-octet I PDU is answered with FRMR)",
-        "the wires are reliable FIFO (NFC-DEP, property C04) and each controller has no other active socket",
+        "the wires are reliable FIFO (NFC-DEP, property C04); the two-endpoint theorems (Props/C05.lean) speak about one "
+        "connection whose PDUs reach its two sockets - that they do when other sockets share the access point is what "
+        "Props/C05Sap.lean proves (sap_route_reaches_connection / net_route_reaches_connection)",
+        "routing theorems: sap_route_reaches_connection assumes the inbound stream is disciplined (`Disc`: CONNECTs of one "
+        "source SAP carry increasing connection numbers, numbered PDUs a number not below the last CONNECT of their SAP); "
+        "client_stream_disciplined proves this for every controller on which no socket listens and net_route_reaches_connection "
+        "composes both over FIFO wires (side A client-only, side B arbitrary); for a peer with listening sockets on both sides "
+        "`Disc` is checked on the real traffic of every generated history (tie:c05-stream-discipline), not proved",
+        "an application closes a socket once and not while connect() waits for the answer; listen()/connect() are called on "
+        "bound sockets; both directions use the same link MIU; service names are `urn:nfc:sn:s<0..9>`; no PDU is addressed "
+        "to SAP 0; receive MIU >= 128",
         "the model equals the Python code outside the compared histories (the D-tie is exhaustive only for the "
         "stated short histories)",
     ]
-    ck.trusted += ["hand-written Lean models NfcVerif.Model.Dlc / NfcVerif.Model.DlcLlc, tied by differential runs",
+    ck.trusted += ["hand-written Lean models NfcVerif.Model.Dlc / NfcVerif.Model.DlcLlc / NfcVerif.Model.DlcSap, tied by differential runs",
+                   "harness/props/c05_net.py, harness/sims/dlc_net.py (several sockets per side; connect()/close() in application "
+                   "threads under the strict baton of dlc_sched, no wall-clock dependence)",
                    "harness/props/c05.py, harness/sims/dlc_pair.py (deterministic single-threaded driver of two real "
                    "controllers; close() in a helper thread with strict rendezvous)"]
     ck.lean("NfcVerif.Props.C05", THEOREMS)
